@@ -47,6 +47,12 @@ TABLES = {
                     ("Built-Using", "dep", "BuiltUsing"), ("Section", "scalar", "Section"), ("Priority", "scalar", "Priority"),
                     ("Homepage", "scalar", "Homepage"), ("Description", "text", "Description")],
 }
+# dependency fields of the indexes that are not struct fields: parsed on demand from the embedded paragraph (Get* accessors)
+ONDEMAND = {"binary_index": ["Depends", "Pre-Depends", "Suggests", "Breaks", "Replaces", "Conflicts", "Built-Using"],
+            "source_index": ["Build-Depends", "Build-Depends-Arch", "Build-Depends-Indep"]}
+GETTER = {"Depends": "GetDepends", "Pre-Depends": "GetPreDepends", "Suggests": "GetSuggests", "Breaks": "GetBreaks", "Replaces": "GetReplaces",
+          "Conflicts": "GetConflicts", "Built-Using": "GetBuiltUsing", "Build-Depends": "GetBuildDepends",
+          "Build-Depends-Arch": "GetBuildDependsArch", "Build-Depends-Indep": "GetBuildDependsIndep"}
 REQUIRED = {"deb_control": ["Package", "Version", "Architecture"]}
 BYHASH = {"md5": b"", "sha1": b"", "sha256": b"SHA256", "sha512": b"SHA512"}
 HEXLEN = {"md5": 32, "sha1": 40, "sha256": 64, "sha512": 128}
@@ -146,7 +152,20 @@ def gen_doc(rng, kind):
         k = rng.choice([b"Epoch", b"Revision", b"Native", b"Relations", b"ABI", b"OS", b"CPU"])
         if k not in present and (k + b":") not in text:
             text += k + b": " + rng.choice([b"3", b"x y", b"yes"]) + b"\n"
-    return text, exp, {"files": files, "present": present}
+    ondemand = {}
+    for f in ONDEMAND.get(kind, []):
+        r = rng.random()
+        if r < 0.55:
+            val, canon = gen_field(rng, "dep", files)
+            text += f.encode() + b":" + val + b"\n"
+            ondemand[f] = canon
+        elif r < 0.62:
+            # malformed text: the accessor has no error result, it answers with the empty dependency
+            text += f.encode() + b": " + rng.choice([b"foo (", b"foo [amd64", b"foo (>= 1.0) (<< 2)", b"a b", b"foo (?? 1)"]) + b"\n"
+            ondemand[f] = "[]"
+        else:
+            ondemand[f] = "[]"
+    return text, exp, {"files": files, "present": present, "ondemand": ondemand}
 
 
 def check_fields(chk, case, res, exp, what):
@@ -197,6 +216,27 @@ def run(chk):
                 if i != "err":
                     chk.violate({"kind": "property", "case": lib.show_case(("tdoc", [kind.encode(), t])), "impl": i[:600],
                                  "explanation": "a .deb control file without the required field %s was accepted" % r})
+    # Changes.GetDSC: the first listed *.dsc, parsed from the file beside the .changes
+    gc, gw = [], []
+    for _ in range(chk.n(60, 1200)):
+        dt, dexp, _ = gen_doc(rng, "dsc")
+        names = [rng.choice([b"foo_1.0.orig.tar.gz", b"foo_1.0-1_amd64.deb", b"foo_1.0-1.debian.tar.xz", b"foo.dsc.asc", b"dsc"]) for _ in range(rng.randrange(0, 3))]
+        dscname = rng.choice([b"foo_1.0-1.dsc", b"bar.dsc", b".dsc"])
+        has = rng.random() < 0.8
+        if has:
+            names.insert(rng.randrange(len(names) + 1), dscname)
+            if rng.random() < 0.3:
+                names.append(b"second_2.0-1.dsc")       # a later *.dsc is not the one
+        rows = b"".join(b"\n " + b"d41d8cd98f00b204e9800998ecf8427e 0 devel optional " + n for n in names)
+        ct = b"Format: 1.8\nSource: foo\nVersion: 1.0-1\nMaintainer: A B <a@b.c>\n" + (b"Files:" + rows + b"\n" if names else b"")
+        gc.append(("tgetdsc", [ct, dscname if has else b"", dt]))
+        gw.append("same " + dexp["Source"] if has else "none")
+    gi = chk.run_impl(gc)
+    chk.record("changes-get-dsc", gc, gi, lambda c, r: r.startswith("same"))
+    for c, i, w in zip(gc, gi, gw):
+        if i != w:
+            chk.violate({"kind": "property", "case": lib.show_case(c), "impl": i[:300], "expected": w,
+                         "explanation": "Changes.GetDSC did not return the parse of the first listed .dsc file beside the .changes (or did not report that there is none)"})
     # debian/control: one source paragraph then binaries
     docs = []
     for _ in range(n):
@@ -214,6 +254,9 @@ def run(chk):
         if r != "same":
             chk.violate({"kind": "property", "case": lib.show_case(c), "impl": r[:1500],
                          "explanation": "ParseControlFile does not return what ParseControl returns for the same debian/control"})
+    acc = chk.run_impl([("taccess", [b"control", t]) for t, _, _ in docs[::3]])
+    for (t, sexp, bexps), a in zip(docs[::3], acc):
+        check_access(chk, "control", t, sexp, {}, a)
     for c, i, (t, sexp, bexps) in zip(cases, impl, docs):
         if not i.startswith("ok <<"):
             chk.violate({"kind": "property", "case": lib.show_case(c), "impl": i[:600], "explanation": "a well-formed debian/control was rejected"}); continue
@@ -243,6 +286,16 @@ def run(chk):
         acc = chk.run_impl([("taccess", [kind.encode(), t]) for t, _, _ in docs[::3]])
         for (t, exps, facts), a in zip(docs[::3], acc):
             check_access(chk, kind, t, exps[0], facts, a)
+        # the on-demand dependency fields (Get*): model = parse of the paragraph's text for that field, empty when absent
+        # or malformed; expectation from the document model
+        oc = [("tondemand", [kind.encode(), t]) for t, _, _ in docs]
+        oi, om = chk.run_both(oc)
+        chk.compare(kind + "-on-demand-dependency-fields", oc, oi, om)
+        for c, i, (t, exps, facts) in zip(oc, oi, docs):
+            want = "ok " + " ".join("%s=%s" % (f, facts["ondemand"][f]) for f in ONDEMAND[kind])
+            if i != want:
+                chk.violate({"kind": "property", "case": lib.show_case(c), "impl": i[:900], "expected": want[:900],
+                             "explanation": "an on-demand dependency accessor of the %s does not return the parsed form of the field written in the document" % kind})
     # best checksums
     docs = []
     for _ in range(200):
@@ -260,7 +313,9 @@ def run(chk):
     acc = chk.run_impl([("taccess", [b"best_checksums", t]) for t, _ in docs])
     chk.record("best-checksums", [("taccess", [b"best_checksums", t]) for t, _ in docs], acc)
     for (t, e), a in zip(docs, acc):
-        if a != "ok Checksums=" + e:
+        rows = [r.strip("() ").split() for r in e.strip("[] ").split(" ) ")] if e != "[]" else []
+        bh = show_list([hx(b"dists/sid/main/source/by-hash/" + bytes.fromhex(r[4][1:]) + b"/" + bytes.fromhex(r[1][1:])) for r in rows])
+        if a != "ok Checksums=" + e + " ByHashPaths=" + bh:
             chk.violate({"kind": "property", "case": lib.show_case(("taccess", [b"best_checksums", t])), "impl": a[:800], "expected": e[:800],
                          "explanation": "the best-checksum selector does not return the SHA-256 (else SHA-512) entries tagged with their own algorithm"})
     # model vs implementation on mutated documents (error behaviour of the typed parsers)
@@ -304,9 +359,29 @@ def check_access(chk, kind, text, exp, facts, a):
                 out.append("( " + " ".join(f) + " )")
             want["AbsFiles"] = show_list(out)
         want["Filename"] = hx(b"/base/dir/x.dsc")
+        names = [bytes.fromhex(r.strip("() ").split()[3][1:]) for r in exp["Files"].strip("[] ").split(" ) ")] if exp["Files"] != "[]" else []
+        ds = [n for n in names if b".debian." in n]
+        want["DebianSource"] = hx(ds[0] if ds else b"<none>")
+    elif kind == "changes":
+        if "Files" in facts["present"]:
+            out = []
+            for r in exp["Files"].strip("[] ").split(" ) "):
+                f = r.strip("() ").split()
+                f[4] = hx(posixpath.join("/base/dir", bytes.fromhex(f[4][1:]).decode()).encode())
+                out.append("( " + " ".join(f) + " )")
+            want["AbsFiles"] = show_list(out)
+        want["Filename"] = hx(b"/base/dir/x.changes")
+    elif kind == "control":
+        ups = exp["Uploaders"]
+        want["Maintainers"] = show_list([exp["Maintainer"]] + (ups.strip("[] ").split() if ups != "[]" else []))
     elif kind == "binary_index":
         src = bytes.fromhex(exp["Source"][1:]); pkg = bytes.fromhex(exp["Package"][1:])
         want["SourcePackage"] = hx(pkg if src == b"" else src.split(b" ")[0])
+        for f in ("Depends", "Conflicts", "Pre-Depends", "Breaks", "Suggests", "Replaces", "Built-Using"):
+            want[GETTER[f]] = facts["ondemand"][f]
+    elif kind == "source_index":
+        for f in ("Build-Depends", "Build-Depends-Indep", "Build-Depends-Arch"):
+            want[GETTER[f]] = facts["ondemand"][f]
     elif kind == "deb_control":
         src = bytes.fromhex(exp["Source"][1:]); pkg = bytes.fromhex(exp["Package"][1:])
         want["SourceName"] = hx(src if src else pkg)
